@@ -142,6 +142,8 @@ def build_driver(cfg="A", quiet=True):
     if COV:
         cmd.insert(1, "+nightly")
         env["RUSTFLAGS"] = "-Cinstrument-coverage"
+        # instrumented build scripts run with cwd = their package directory (/repo for snow): keep their profiles out of it
+        env["LLVM_PROFILE_FILE"] = os.path.join(VERIF, ".work", "cov-build", "%p-%m.profraw")
     t0 = time.time()
     p = subprocess.run(cmd, cwd=d, env=env, stdout=subprocess.PIPE, stderr=subprocess.STDOUT, text=True)
     if p.returncode != 0:
